@@ -24,7 +24,9 @@ THEOREMS = [
     "BeyondVerif.C05.propagate_history_independent",
     "BeyondVerif.C05.propagate_overwrites_cache",
     "BeyondVerif.C05.kpM2eLoop_exit",
-    "BeyondVerif.C05.kepler_anomaly_residual_partial",
+    "BeyondVerif.C05.m2e_loop_residual_elliptic",
+    "BeyondVerif.C05.kpM2e_elliptic_spec",
+    "BeyondVerif.C05.kepler_anomaly_residual",
     "BeyondVerif.C05.kepler_cart_compose",
     "BeyondVerif.C05.kepler_cart_inverse",
     "BeyondVerif.C05.kepler_cart_periodic",
@@ -136,29 +138,56 @@ def to_cart_chain(tree):
     top = body[1]
     test = py2lean.translate_expr(top.test)
     out = {}
-    expected = ast.dump(ast.parse("X1 = next_X(X, e, M)\nwhile abs(X1 - X) >= tol:\n    X = X1\n    X1 = next_X(X, e, M)\nreturn X1\n"))
+    expected = ast.dump(ast.Module(body=ast.parse("X1 = next_X(X, e, M)\nwhile abs(X1 - X) >= tol:\n    X = X1\n    X1 = next_X(X, e, M)\n").body, type_ignores=[]))
     for tag, blk, var, nxt in (("E", top.body, "E", "next_E"), ("H", top.orelse, "H", "next_H")):
-        k = 0
+        # shape: [prelude assignments of M / one auxiliary]* [start-value ifs]+ def next; X1 = next(X); while …; return f(X1, aux)
+        j = 0
+        while j < len(blk) and isinstance(blk[j], ast.Assign) and len(blk[j].targets) == 1 and isinstance(blk[j].targets[0], ast.Name):
+            j += 1
+        k = j
         while k < len(blk) and isinstance(blk[k], ast.If):
             k += 1
-        if not (k >= 1 and len(blk) == k + 4 and isinstance(blk[k], ast.FunctionDef) and blk[k].name == nxt):
+        if not (k >= j + 1 and len(blk) == k + 4 and isinstance(blk[k], ast.FunctionDef) and blk[k].name == nxt and isinstance(blk[k + 3], ast.Return)):
             raise py2lean.Untranslatable(f"M2E: unexpected shape of the {tag} branch")
+        prelude = list(blk[:j])
+        aux = sorted({st.targets[0].id for st in prelude} - {"M"})
+        if len(aux) > 1 or any(st.targets[0].id in (var, var + "1", "e", "tol") for st in prelude):
+            raise py2lean.Untranslatable(f"M2E: unexpected prelude of the {tag} branch")
+
+        def pre(name, default):
+            if not any(st.targets[0].id == name for st in prelude):
+                return default
+            t = py2lean.TrFn()
+            t.defined |= {"e", "M"}
+            return t.stmts(prelude + [ast.Return(value=ast.Name(id=name, ctx=ast.Load()))])
+        out["arg" + tag] = pre("M", "M")
+        out["off" + tag] = pre(aux[0], "(0 : R)") if aux else "(0 : R)"
         tr = py2lean.TrFn()
         tr.defined |= {"e", "M"}
-        out["start" + tag] = tr.stmts(list(blk[:k]) + [ast.Return(value=ast.Name(id=var, ctx=ast.Load()))])
+        out["start" + tag] = tr.stmts(list(blk[j:k]) + [ast.Return(value=ast.Name(id=var, ctx=ast.Load()))])
         nf = blk[k]
         if [a.arg for a in nf.args.args] != [var, "e", "M"] or len(nf.body) != 1 or not isinstance(nf.body[0], ast.Return):
             raise py2lean.Untranslatable("M2E: unexpected Newton update function")
         out["next" + tag] = py2lean.translate_expr(_rename([nf.body[0].value], {var: "X"})[0])
-        shape = ast.dump(ast.Module(body=_rename(blk[k + 1:], {var: "X", var + "1": "X1", nxt: "next_X"}), type_ignores=[]))
+        shape = ast.dump(ast.Module(body=_rename(blk[k + 1:k + 3], {var: "X", var + "1": "X1", nxt: "next_X"}), type_ignores=[]))
         if shape != expected:
             raise py2lean.Untranslatable("M2E: the iteration loop no longer has the modelled shape (exit only when |X1 - X| < tol)")
+        ret = _rename([blk[k + 3].value], dict({var + "1": "X1"}, **({aux[0]: "off"} if aux else {})))[0]
+        used = {n.id for n in ast.walk(ret) if isinstance(n, ast.Name)}
+        if not ("X1" in used and used <= {"X1", "off", "np"}):
+            raise py2lean.Untranslatable(f"M2E: the {tag} branch returns something else than a function of the last iterate and the prelude's offset")
+        out["res" + tag] = py2lean.translate_expr(ret)
     cls = py2lean.find_function(tree, "Form")
     edge = next(f for f in cls.body if isinstance(f, ast.FunctionDef) and f.name == "_keplerian_mean_to_keplerian_eccentric")
     stm = [st for st in edge.body if not (isinstance(st, ast.Expr) and isinstance(st.value, ast.Constant))]
     if [ast.dump(x) for x in stm] != [ast.dump(x) for x in ast.parse(M2E_EDGE_SRC).body]:
         raise py2lean.Untranslatable("_keplerian_mean_to_keplerian_eccentric no longer has the modelled shape (a,e,i,Ω,ω,M2E(e,M))")
     parts = [f"/-- `tol` of `Form.M2E` -/\ndef kpM2eTol : R := {tol}\n",
+             "/-- the mean anomaly the iteration of `Form.M2E` works on (prelude of the branch: reduction to [-π, π) for ellipses) -/\ndef kpM2eArg (e M : R) : R :=\n  if " + test + " then\n" +
+             py2lean.indent(out["argE"], 4) + "\n  else\n" + py2lean.indent(out["argH"], 4) + "\n",
+             "/-- the offset set aside by the prelude (whole revolutions for ellipses; none for hyperbolas) -/\ndef kpM2eOffset (e M : R) : R :=\n  if " + test + " then\n" +
+             py2lean.indent(out["offE"], 4) + "\n  else\n" + py2lean.indent(out["offH"], 4) + "\n",
+             "/-- the value returned by `Form.M2E` from the last iterate and the offset -/\ndef kpM2eResult (e X1 off : R) : R :=\n  if " + test + " then " + out["resE"] + "\n  else " + out["resH"] + "\n",
              "/-- start value of the Newton iteration in `Form.M2E` (every branch) -/\ndef kpM2eStart (e M : R) : R :=\n  if " + test + " then\n" +
              py2lean.indent(out["startE"], 4) + "\n  else\n" + py2lean.indent(out["startH"], 4) + "\n",
              "/-- `next_E` / `next_H` of `Form.M2E` -/\ndef kpM2eNext (X e M : R) : R :=\n  if " + test + " then " + out["nextE"] + "\n  else " + out["nextH"] + "\n",
@@ -279,6 +308,7 @@ def m2e_iters(e, M, cap=100000):
     """number of passes of the Newton loop of Form.M2E (harness-side mirror, used ONLY to select inputs on which the
     loop runs long — never as an expected value)"""
     if e < 1:
+        M = M - TWO_PI * math.floor((M + math.pi) / TWO_PI)
         X = M - e if (-math.pi < M < 0 or M > math.pi) else M + e
         nx = lambda E: E + (M - E + e * math.sin(E)) / (1 - e * math.cos(E))
     else:
